@@ -96,6 +96,13 @@ class FieldArrayModel(FieldCompositeModel):
         
     def post_randomize(self, visited):
         FieldCompositeModel.post_randomize(self, visited)
+        if self.is_rand_sz and self.is_scalar:
+            # Elements beyond the solved size only exist to give the 
+            # solver room. Drop them, so that the storage matches the list 
+            # the user sees (append/extend act on exactly that list)
+            sz = int(self.size.get_val())
+            if 0 <= sz < len(self.field_l):
+                del self.field_l[sz:]
         self.sum_expr = None
         self.sum_expr_btor = None
         
